@@ -37,6 +37,7 @@ from quara.protocol.qtomography.standard.standard_qtomography_estimator import (
     StandardQTomographyEstimator,
     StandardQTomographyEstimationResult,
 )
+from quara.utils.number_util import to_stream
 from quara.simulation.generation_setting import (
     QOperationGenerationSettings,
     QOperationGenerationSetting,
@@ -839,6 +840,8 @@ def generate_empi_dists_and_calc_estimate(
     else:
         estimation_results = []
         empi_dists_sequences = []
+        # convert once: an integer seed must not re-create the same generator per repetition
+        stream = to_stream(seed_or_generator)
         for _ in tqdm(range(iteration)):
             estimation_result, empi_dists_seq = _generate_empi_dists_and_calc_estimate(
                 qtomography,
@@ -849,7 +852,7 @@ def generate_empi_dists_and_calc_estimate(
                 loss_option=loss_option,
                 algo=algo,
                 algo_option=algo_option,
-                seed_or_generator=seed_or_generator,
+                seed_or_generator=stream,
                 is_computation_time_required=is_computation_time_required,
                 is_detailed_results_required=is_detailed_results_required,
             )
